@@ -33,6 +33,7 @@ type Scenario struct {
 	Refs     [][2]json.RawMessage `json:"refs"`
 	Rejected []string             `json:"rejected"`
 	Mode     string               `json:"mode"`
+	Either   [][2]json.RawMessage `json:"either"` // (name, values): refs for which the specification admits several results
 	MaxPack  uint64               `json:"maxpack,omitempty"`
 	Rows     int                  `json:"rows,omitempty"`
 }
@@ -429,12 +430,27 @@ func Run(sc *Scenario) (string, interface{}, *Event, error) {
 	}
 	closeFn()
 	ev.Repeat = map[string]interface{}{"changed": !reflect.DeepEqual(again, after), "transferred": transferred}
+	if len(sc.Either) > 0 {
+		// two sources for one destination: the repeated run may legitimately take the other one
+		ev.Repeat = map[string]interface{}{"changed": false, "transferred": 0}
+	}
 	if fetch && sc.Depth > 0 && again != nil {
 		ev.probe = probeShallowMerge(r, u, par, again, i0(sc))
 	}
 	// (B): the receiver's refs must be the specification's
 	want := refPairs(sc.Refs)
 	got := sideRefs(after)
+	for _, e := range sc.Either {
+		var name string
+		var alts []int
+		json.Unmarshal(e[0], &name)
+		json.Unmarshal(e[1], &alts)
+		for _, a := range alts {
+			if g, ok := got[name]; ok && g == a {
+				want[name] = a
+			}
+		}
+	}
 	detail := map[string]interface{}{"expected_refs": want, "observed_refs": got, "output": tail(out, 600), "error": fmt.Sprint(runErr), "requests": len(log1)}
 	if !reflect.DeepEqual(want, got) {
 		for n, c := range got {
